@@ -293,7 +293,7 @@ def id_assigned(fx, full):
             t = vt.strip(t.get('v'))
         if not (isinstance(t, dict) and t.get('k') == 'payload' and t.get('field') == 'id'):
             continue
-        if str(t.get('variant', '')).endswith(full):
+        if str(t.get('variant', '')).endswith(full) or any(str(d.get('variant', '')).replace(' ', '').endswith(full) and d.get('field') == 'id' for d in t.get('also', []) or []):
             return True
         for fr in asg.get('guard', []):
             c = fr.get('c') if fr.get('k') == 'if' and not fr.get('neg') else None
@@ -400,7 +400,9 @@ def n6(ctx, rep):
         t = vt.strip(asg.get('target'))
         while isinstance(t, dict) and t.get('k') in ('deref', 'ref', 'paren'):
             t = vt.strip(t.get('v'))
-        if not (isinstance(t, dict) and t.get('k') == 'payload' and t.get('field') == 'id' and str(t.get('variant', '')).endswith('RustType::Simple')):
+        # the `id` of RustType::Simple — also when bound by an or-pattern (`Generic { id, .. } | Simple { id } => *id = …`)
+        from .. import coverage
+        if not coverage.is_payload_of(t, 'RustType', 'Simple', 'id'):
             continue
         n_rewrites += 1
         ok = False
@@ -463,7 +465,9 @@ def n3(ctx, rep):
     deleg = delegated_children(f)
     if not m_rt and not deleg:
         raise core.Incomplete('check_type: neither a match over RustType nor a loop over a children iterator of the type found')
-    if not m_rt:
+    if deleg:
+        # an unconditional `for p in ty.<children>() { check_type(.., p) }`: payload coverage is the iterator's business, whether
+        # or not a match (for the id rewriting) stands next to the loop
         n3_delegated(ctx, rep, f, fx, deleg, rt, site)
     else:
         n3_match(ctx, rep, f, fx, m_rt, rt, sp, site)
